@@ -8,8 +8,11 @@ KINDS = ["vec_znx_add", "vec_znx_rotate", "vec_znx_automorphism", "vec_znx_norma
 def _jobs(tier):
     jobs = []
     if tier == "quick":
-        for i in range(16):
+        for i in range(14):
             jobs.append(dict(sub="threads", count=100, fix=dict(k=(1, 10))))
+        # the depth-first FFT / block-scheduled NTT paths only exist for N >= 8192 / n >= 2048: a few programs there too
+        jobs.append(dict(sub="threads", count=14, fix=dict(k=(11, 12), T=(2, 8))))
+        jobs.append(dict(sub="threads", count=10, fix=dict(k=(13, 14), T=(2, 6))))
     else:
         for i in range(16):
             jobs.append(dict(sub="threads", count=2000, fix=dict(k=(1, 10))))
